@@ -105,7 +105,7 @@ var hugeNumbers = []struct {
 }
 
 // genericMutations enumerates, for every node of tree, every generic single-field corruption.
-func genericMutations(tree interface{}) []mutation {
+func genericMutations(tree interface{}, allTypes bool) []mutation {
 	var out []mutation
 	var walk func(v interface{}, path []string)
 	walk = func(v interface{}, path []string) {
@@ -113,34 +113,42 @@ func genericMutations(tree interface{}) []mutation {
 		set := func(name string, val interface{}) {
 			out = append(out, mutation{Path: p, Op: "set", Name: name, Val: val})
 		}
+		// quick tier: one wrong type per node (the first listed); thorough: every other JSON type
+		first := true
+		setT := func(name string, val interface{}) {
+			if first || allTypes {
+				set(name, val)
+			}
+			first = false
+		}
 		if len(p) > 0 {
 			out = append(out, mutation{Path: p, Op: "remove", Name: "remove"})
 		}
 		set("null", nil)
 		switch t := v.(type) {
 		case string:
-			set("wrong-type-number", json.Number("7"))
-			set("wrong-type-bool", true)
-			set("wrong-type-array", []interface{}{})
-			set("wrong-type-object", map[string]interface{}{})
+			setT("wrong-type-number", json.Number("7"))
+			setT("wrong-type-bool", true)
+			setT("wrong-type-array", []interface{}{})
+			setT("wrong-type-object", map[string]interface{}{})
 			if t != "" {
 				set("empty", "")
 			}
 		case json.Number:
-			set("wrong-type-string", t.String())
-			set("wrong-type-bool", true)
-			set("wrong-type-object", map[string]interface{}{})
+			setT("wrong-type-string", t.String())
+			setT("wrong-type-bool", true)
+			setT("wrong-type-object", map[string]interface{}{})
 			for _, h := range hugeNumbers {
 				set(h.name, h.val)
 			}
 		case bool:
-			set("wrong-type-string", fmt.Sprint(t))
-			set("wrong-type-number", json.Number("1"))
+			setT("wrong-type-string", fmt.Sprint(t))
+			setT("wrong-type-number", json.Number("1"))
 			set("flipped", !t)
 		case map[string]interface{}:
-			set("wrong-type-string", "x")
-			set("wrong-type-number", json.Number("7"))
-			set("wrong-type-array", []interface{}{})
+			setT("wrong-type-string", "x")
+			setT("wrong-type-number", json.Number("7"))
+			setT("wrong-type-array", []interface{}{})
 			if len(t) > 0 {
 				set("empty", map[string]interface{}{})
 			}
@@ -148,9 +156,9 @@ func genericMutations(tree interface{}) []mutation {
 				walk(t[k], append(p, k))
 			}
 		case []interface{}:
-			set("wrong-type-string", "x")
-			set("wrong-type-number", json.Number("7"))
-			set("wrong-type-object", map[string]interface{}{})
+			setT("wrong-type-string", "x")
+			setT("wrong-type-number", json.Number("7"))
+			setT("wrong-type-object", map[string]interface{}{})
 			if len(t) > 0 {
 				set("empty", []interface{}{})
 			}
